@@ -395,3 +395,72 @@ func c15closeVsFirstFrame() zzmc.Scenario {
 		},
 	}
 }
+
+// ---------------------------------------------------------------- C14 / C15: reads with a deadline never lose a queued packet
+
+func init() {
+	csScenarios["tcpconn-deadline-read"] = c14deadlineRead
+}
+
+// c14deadlineRead: one framed packet is queued on a TCP mux connection; the application reads through its handle with
+// a read deadline that has already passed (three times: each read either returns the packet or times out), then
+// without a deadline. The packet is delivered exactly once, whatever the select inside the read chooses.
+func c14deadlineRead() zzmc.Scenario {
+	return zzmc.Scenario{
+		Name:     "tcpconn-deadline-read",
+		Focus:    []string{"tcp_packet_conn.go", "shared_packet_conn.go"},
+		MaxSteps: 2000,
+		Setup: func(s *zzmc.Sched) func(string) (string, string) {
+			lis := &fakeLis{ch: make(chan net.Conn), closed: make(chan struct{}), addr: &net.TCPAddr{IP: net.ParseIP("10.0.0.1").To4(), Port: 7001}}
+			m := NewTCPMuxDefault(TCPMuxParams{Listener: lis, Logger: nopLogger{}, ReadBufferSize: 16})
+			h, err := m.GetConnByUfrag("u1", false, net.ParseIP("10.0.0.1").To4())
+			if err != nil {
+				panic(err)
+			}
+			c, srv := newPipe(&net.TCPAddr{IP: net.ParseIP("192.0.2.9").To4(), Port: 40001}, lis.addr)
+			wire, payload, _ := c15first("u1")
+			s.Go("IN", func() { // the client connects and sends its one packet (it may be queued before, between or after the reads)
+				lis.ch <- srv
+				_, _ = c.Write(wire)
+			})
+			fail := ""
+			got := 0
+			finished := false
+			s.Go("R", func() {
+				buf := make([]byte, 2000)
+				_ = h.SetReadDeadline(time.Now().Add(-time.Second))
+				for i := 0; i < 3; i++ {
+					if n, _, err := h.ReadFrom(buf); err == nil {
+						got++
+						if string(buf[:n]) != string(payload) {
+							fail += "PACKET-CHANGED "
+						}
+					}
+				}
+				_ = h.SetReadDeadline(time.Time{})
+				if got == 0 {
+					if n, _, err := h.ReadFrom(buf); err == nil && string(buf[:n]) == string(payload) {
+						got++
+					}
+				}
+				finished = true
+			})
+
+			return func(dead string) (string, string) {
+				if !finished {
+					fail += "QUEUED-PACKET-LOST(the read without a deadline blocks: a timed-out read took it away) "
+					_ = h.Close()
+				}
+				synctest.Wait()
+				if got > 1 {
+					fail += "PACKET-DELIVERED-TWICE "
+				}
+				_ = h.Close()
+				_ = c.Close()
+				_ = m.Close()
+
+				return fmt.Sprintf("got=%d", got), fail
+			}
+		},
+	}
+}
